@@ -212,6 +212,8 @@ def gen_spawn(d: D, prof: dict, depth: int, op: Optional[dict] = None) -> dict:
             op["as_list"] = True
         elif depth == 0 and d.p(prof["p_embedded"] * 0.5) and op["n"]:
             op["pull_ops"] = {str(d.i(0, op["n"] - 1)): gen_op(d, prof, d.pick(["cancel_group", "cancel", "spawn", "gate", "flush"]), depth + 1)}
+        if "as_list" not in op and d.p(0.08):
+            op["hint"] = d.pick([0, 1, 2, 50])     # the iterator answers operator.length_hint() - too low or too high
     op["worker"] = gen_worker(d, dict(prof, _kind_hint=kind), depth, n_hint)
     e = gen_cb(d, prof, depth)
     c = gen_cb(d, prof, depth)
